@@ -1,7 +1,7 @@
 (* C17 - JSON forms round-trip and schema conversions behave as documented.  Pinned statements. *)
 From CSL Require Import Base.Prelude Base.Hex Json.Decimal Json.Json Json.MetadataJson Json.Chunks Json.PlutusJson
   Json.SerdeForms Json.JsonProofs Json.MetadataJsonProofs Json.ChunksProofs Json.PlutusJsonProofs Json.SerdeFormsProofs
-  Json.Witnesses.
+  Json.Witnesses Codec.Schema Json.SerdeSchema Json.SerdeSchemaProofs Json.SerdeLedger Json.SerdeLedgerProofs.
 Local Open Scope N_scope.
 
 (* Metadata converted to JSON and back is unchanged under DetailedSchema whenever the first conversion succeeds
@@ -94,6 +94,37 @@ Theorem C17_serde_forms_total : forall t j, sf_de t j = Err \/ exists v, sf_de t
 Proof. exact sf_de_total. Qed.
 Print Assumptions C17_serde_forms_total.
 
+(* Typed ledger values, first sentence, for the ANNOTATED types (Json/SerdeLedger.v serde_table): the serde JSON form
+   is an interpretation [json_s] / [of_json_s] of an annotation over the C01 value trees.  For every annotation with
+   distinct field / variant names and every value in its domain, reading back what was written gives the normal form
+   [norm_s] (maps re-ordered by their Rust key order) ... *)
+Theorem C17_serde_read_write :
+  forall (ext_str : N -> bytes -> bytes) (ext_of_str : N -> bytes -> option bytes) a v,
+  wfj a = true -> jwf ext_str ext_of_str a v = true ->
+  of_json_s ext_of_str a (json_s ext_str a v) = Ok (norm_s ext_str a v).
+Proof. intros e1 e2 a v Hw Hv. exact (serde_read_write e1 e2 a Hw v Hv). Qed.
+Print Assumptions C17_serde_read_write.
+(* ... which is the value itself whenever its map-typed parts were filled in ascending key order ([canonical]) ... *)
+Theorem C17_serde_typed_roundtrip :
+  forall (ext_str : N -> bytes -> bytes) (ext_of_str : N -> bytes -> option bytes) a v,
+  wfj a = true -> jwf ext_str ext_of_str a v = true -> canonical ext_str a v = true ->
+  of_json_s ext_of_str a (json_s ext_str a v) = Ok v.
+Proof. exact serde_roundtrip. Qed.
+Print Assumptions C17_serde_typed_roundtrip.
+(* ... instantiated on every annotated ledger type, to every depth of the recursive ones: equal value, same CBOR bytes. *)
+Theorem C17_serde_table_roundtrip :
+  forall (ext_str : N -> bytes -> bytes) (ext_of_str : N -> bytes -> option bytes)
+         (emb : json -> json) (unemb : json -> option json) d name s a v,
+  In (name, s, a) (serde_table emb unemb d) ->
+  jwf ext_str ext_of_str a v = true -> canonical ext_str a v = true ->
+  exists v', of_json_s ext_of_str a (json_s ext_str a v) = Ok v' /\ v' = v /\ enc s v' = enc s v.
+Proof. exact serde_table_roundtrip. Qed.
+Print Assumptions C17_serde_table_roundtrip.
+Theorem C17_serde_annotations_wf : forall emb unemb d, Forall (fun e => wfj (snd e) = true) (serde_table emb unemb d).
+Proof. exact serde_table_wfj. Qed.
+Print Assumptions C17_serde_annotations_wf.
+Check ex_value_ok. Check ex_cert_ok. Check ex_withdrawals_ok. Check ex_withdrawals_rev_reordered.
+
 (* The full first sentence, for reference: it speaks about the derive expansions (external); [to_json],
    [from_json] and [maps_ascending] would be the serde interpretation of the C01 schemas. *)
 Definition C17_typed_values_full (T : Type) (to_json : T -> json) (from_json : json -> result T)
@@ -107,7 +138,7 @@ Theorem C17_old_behaviour_refuted :
   (json_wf w_bigkey = true /\ nf Basic w_bigkey = true /\ exists m, j2m cfg_old_key Basic w_bigkey = Ok m /\ m2j Basic m = Err) /\
   (json_wf w_extra = true /\ in_schema Detailed w_extra = false /\ exists m, j2m cfg_old_lenient Detailed w_extra = Ok m) /\
   (pdom_detailed w_extra = false /\ exists p, j2p cfg_old_lenient PDetailed w_extra = Ok p) /\
-  (sf_de_gen true SInt (sf_ser SInt (VNum (- two64Z))) = Err /\ sf_de_gen true SInt (JStr (print_Z i128_min)) = Panic).
+  (sf_de_gen true SInt (sf_ser SInt (SVNum (- two64Z))) = Err /\ sf_de_gen true SInt (JStr (print_Z i128_min)) = Panic).
 Proof.
   destruct old_negmin_refuted as [A B]. split; [exact A|]. split; [exact B|].
   split; [exact old_key_unchecked_refuted|]. split; [exact old_lenient_refuted|].
